@@ -3,12 +3,13 @@ Spec: Kahan.tla (toy binary floating point with a P-bit significand, KahanStep a
 sum on all sequences <= 9 over an 8-value alphabet for P = 3, 4, 5 and on long large-then-small sequences; violated by the naive and the 'skip'
 variants), Trace_C14."""
 import vt
+import mpicommon
 
 LEVEL = "model_checking"
 BUILDS = [(("drv_c14", ["drv_c14.cpp"]), {"flags": ["-O2"]})]
 
 
-def run(chk, replay=None):
+def run_main(chk, replay=None):
     thorough = chk.tier == "thorough"
     chk.cov["checker_cmd"] = "tlc MC_Kahan (p3, p4, p5, long: hold; naive, skip: violated); tlc Trace_C14 (TRACE=out/C14/trace.ndjson)"
     chk.cov["trusted_base"] = ["TLC", "minifloat<P> implements the arithmetic of Kahan.tla (integers, P-bit significand, round to nearest even)",
@@ -51,6 +52,15 @@ def run(chk, replay=None):
         if r2.rc == 0:
             raise vt.MachineryError("binding self-test: corrupted trace accepted")
         chk.cov["binding_selftest"] = "toy result replaced by the naive one at event %d: rejected (matched %s)" % (i + 1, r2.matched)
+
+
+def run(chk, replay=None):
+    if mpicommon.is_mpi_replay(replay):
+        mpicommon.mpi_leg(chk, "C14:mpi", replay=replay)
+        return
+    run_main(chk, replay=replay)
+    if not replay and not chk.violations:
+        mpicommon.legs(chk, "C14:mpi", big=False)
 
 
 def replay(chk, path):
